@@ -30,6 +30,7 @@ ANNOTS = {
     'w=0.5;q=-1': {'charge': -1.0, 'weight': 0.5},
     'mass=72': {'charge': 0.0, 'weight': 1.0, 'mass': '72'},
     'q=1;k=ab': {'charge': 1.0, 'weight': 1.0, 'k': 'ab'},
+    'k=ab': {'charge': 0.0, 'weight': 1.0, 'k': 'ab'},
 }
 ALL = ('=', '.', '-', '#', '$')
 
@@ -44,7 +45,7 @@ def spaces(tier, seed):
         sp.append(('allsym4', G.Bound(max_nodes=4, max_depth=3, max_open=2, max_rings=2, bonds=ALL,
                                       ring_styles=('d',)), 4))
         sp.append(('annot3', G.Bound(max_nodes=3, max_depth=2, max_open=1, max_rings=1, bonds=('=',),
-                                     ring_styles=('d', 'p'), annots=[a for a in ANNOTS if a]), 3))
+                                     ring_styles=('d', 'p'), annots=[a for a in ANNOTS if a and a != 'k=ab']), 3))
         sp.append(('names4', G.Bound(max_nodes=4, max_depth=2, max_open=1, max_rings=1, bonds=('.',),
                                      ring_styles=('d',), names=['PEO', 'A1', 'b_2', 'X9y']), 3))
     else:
@@ -57,7 +58,7 @@ def spaces(tier, seed):
         sp.append(('allsym5', G.Bound(max_nodes=5, max_depth=3, max_open=2, max_rings=2, bonds=ALL,
                                       ring_styles=('d',), max_bonds=3), 5))
         sp.append(('annot4', G.Bound(max_nodes=4, max_depth=2, max_open=1, max_rings=1, bonds=('=',),
-                                     ring_styles=('d', 'p'), annots=[a for a in ANNOTS if a]), 4))
+                                     ring_styles=('d', 'p'), annots=[a for a in ANNOTS if a and a != 'k=ab']), 4))
         sp.append(('names4', G.Bound(max_nodes=4, max_depth=2, max_open=1, max_rings=1, bonds=('.',),
                                      ring_styles=('d',), names=['PEO', 'A1', 'b_2', 'X9y']), 3))
     # seed slice: 7-node sentences over a two-symbol alphabet and a shape family chosen by the seed,
